@@ -48,7 +48,7 @@ pub(super) mod tcp {
                 dst.extend_from_slice(&self.key);
                 dst.extend_from_slice(&trojan::CR_LF);
                 dst.put_u8(self.command);
-                address::encode(&self.address, dst);
+                address::encode(&self.address, dst)?;
                 dst.extend_from_slice(&trojan::CR_LF);
                 self.status = CodecState::Body;
             }
@@ -163,12 +163,12 @@ pub(super) mod udp {
                 dst.extend_from_slice(&self.key);
                 dst.extend_from_slice(&trojan::CR_LF);
                 dst.put_u8(self.command);
-                address::encode(&self.address, dst);
+                address::encode(&self.address, dst)?;
                 dst.extend_from_slice(&trojan::CR_LF);
                 self.status = CodecState::Body;
             }
             let buffer = &mut BytesMut::new();
-            address::encode(&item.1, buffer);
+            address::encode(&item.1, buffer)?;
             buffer.put_u16(item.0.len() as u16);
             buffer.extend_from_slice(&trojan::CR_LF);
             buffer.extend_from_slice(&item.0);
